@@ -207,8 +207,29 @@ def rule_o5(repo):
     negative coefficient is its absolute value (functools.reduce(gcd, [-3]) is -3: nothing is reduced)."""
     res = RuleResult('C16.O5', 'every factoid that enters a constraint database was divided by the gcd of its coefficients, or is copied from a database', floor=3)
     m = repo.module('prover/omega.py')
+
+    def gcd_calls(node, about):
+        out = []
+        for c in ast.walk(node):
+            if isinstance(c, ast.Call) and call_name(c) in ('functools.reduce', 'reduce') and c.args and is_name(c.args[0], 'gcd') and \
+                    any(is_name(x, about) for x in ast.walk(c)):
+                absolute = (len(c.args) >= 3 and isinstance(c.args[2], ast.Constant) and c.args[2].value == 0) or \
+                    any(isinstance(x, ast.Call) and call_name(x) == 'abs' for x in ast.walk(c))
+                out.append((c, absolute))
+        return out
+    # helpers that return their argument divided by the gcd of its coefficients
+    reducers = {}
+    for g in m.functions.values():
+        ps = g.params()
+        if len(ps) != 1:
+            continue
+        gc = gcd_calls(g.node, ps[0])
+        rets = [r for r in ast.walk(g.node) if isinstance(r, ast.Return) and r.value is not None]
+        if gc and rets and all(is_name(r.value, ps[0]) or any(isinstance(x, ast.BinOp) and isinstance(x.op, ast.FloorDiv) for x in ast.walk(r.value)) or
+                               isinstance(r.value, ast.Name) for r in rets):
+            reducers[g.name] = all(a for _c, a in gc)
     for f in m.all_funcs:
-        if f.name == 'insert_db' or f.parent is not None:
+        if f.name == 'insert_db' or f.parent is not None or f.name in reducers:
             continue
         calls = [c for c in ast.walk(f.node) if isinstance(c, ast.Call) and call_name(c) == 'insert_db' and len(c.args) == 2]
         if not calls:
@@ -218,6 +239,10 @@ def rule_o5(repo):
         for c in calls:
             v = c.args[1]
             key = 'prover/omega.py :: %s :: insert(%s)@%s' % (f.qualname, src(v, 30), src(c.args[0], 15))
+            if isinstance(v, ast.Call) and call_name(v) in reducers:
+                res.add(key, reducers[call_name(v)], 'reduced by %s' % call_name(v) if reducers[call_name(v)] else
+                        '%s takes the gcd without the initial 0: a single negative coefficient is not reduced' % call_name(v), 'prover/omega.py:%d' % c.lineno)
+                continue
             if not isinstance(v, ast.Name):
                 res.add(key, False, 'line %d inserts `%s` as it is built: the row is never divided by the gcd of its coefficients, and the bounds '
                         'of a variable with coefficient 3 are compared as if it were 1 ([[1, 1], [-3, -2]] was answered UNSAT, x = -1 satisfies it)' % (
@@ -230,6 +255,12 @@ def rule_o5(repo):
             problems = []
             built = [d for d in defs if d.kind == 'stmt' and isinstance(d.ast, ast.Assign)]
             copied = [d for d in defs if not (d.kind == 'stmt' and isinstance(d.ast, ast.Assign))]
+            by_helper = [d for d in built if isinstance(d.ast.value, ast.Call) and call_name(d.ast.value) in reducers]
+            if by_helper and len(by_helper) == len(built):
+                bad_h = [call_name(d.ast.value) for d in by_helper if not reducers[call_name(d.ast.value)]]
+                res.add(key, not bad_h, 'reduced by %s' % call_name(by_helper[0].ast.value) if not bad_h else
+                        '%s takes the gcd without the initial 0: a single negative coefficient is not reduced' % bad_h[0], 'prover/omega.py:%d' % c.lineno)
+                continue
             if built:
                 # a gcd computation over the coefficients of v dominates the insertion
                 gcds = [n for n in cfg.nodes if n.kind == 'stmt' and isinstance(n.ast, ast.Assign) and isinstance(n.ast.value, ast.Call) and
